@@ -1,0 +1,35 @@
+//go:build verif
+
+package binary
+
+import "sync/atomic"
+
+// Counters of objects freshly constructed by the package's pools. Used by the
+// verification harness as evidence that pooled objects were actually recycled
+// during a stress run (operations performed minus objects constructed). No
+// behaviour changes.
+var verifPoolNews [5]int64
+
+// VerifPoolNews returns how many objects each pool has constructed so far, in
+// the order: Writer, StreamWriter, StreamReader, lazyValueList, lazyMapItemList.
+func VerifPoolNews() [5]int64 {
+	var out [5]int64
+	for i := range out {
+		out[i] = atomic.LoadInt64(&verifPoolNews[i])
+	}
+	return out
+}
+
+func init() {
+	wrap := func(i int, fn func() interface{}) func() interface{} {
+		return func() interface{} {
+			atomic.AddInt64(&verifPoolNews[i], 1)
+			return fn()
+		}
+	}
+	writerPool.New = wrap(0, writerPool.New)
+	streamWriterPool.New = wrap(1, streamWriterPool.New)
+	streamReaderPool.New = wrap(2, streamReaderPool.New)
+	lazyValueListPool.New = wrap(3, lazyValueListPool.New)
+	lazyMapItemListPool.New = wrap(4, lazyMapItemListPool.New)
+}
